@@ -19,6 +19,9 @@ ASSUMPTIONS = ['reference interpreters A and B agree (ISO cut semantics: local i
                'transparent in branches)', 'bodies with a cut inside a condition of -> or under \\+ '
                'are not generated / skipped (positions outside the statement)',
                'clauses needing more than 20 nested Python blocks are rejected by the compiler and discarded']
+RULE_ADDED = (' Added after the rounds of independently written changes (DESIGN.md 12.2): ' +
+              '12-19 goal clauses with a cut at every position; clause-selecting head patterns; clause-local variables aliased to head variables; the queried predicate name at other arities.')
+RULE = RULE + RULE_ADDED
 
 KQUICK, KTHOROUGH = 3, 4
 
